@@ -100,6 +100,9 @@ class EngineCheck(PropertyCheck):
                 if o.pop("latent", False):
                     cases.append(E.gen_latent_cycle(rng) if rng.chance(2, 3) else E.gen_self_discovery(rng))
                     continue
+                if o.pop("cancelscan", False):
+                    cases.append(E.gen_cancel_scan(rng))
+                    continue
                 if o.pop("drain", False):
                     cases.append(E.gen_cancel_drain(rng))
                     continue
